@@ -411,7 +411,6 @@ func c04PauseUnit(c *fw.Ctx, unit int) {
 	}
 }
 
-
 // ---- the two ends of the representable calendar as explicit target dates
 
 var c04EndsInit = []string{
